@@ -30,8 +30,12 @@ Conventions: addresses and scope ids are symbolic strings.  The scope token of s
 `i` of the shared `Ledger`; the Go harness maps names to real addresses/denoms.  The empty
 string is "no address" exactly as in the Go code (`len(addr) == 0`).
 Outside the model (assumed off in the harness app): quarantine opt-ins and sanctions (both
-would be further send restrictions), fee grants in use, expiring authz grants, scopes with
-`require_party_rollup`, scope specifications other than the one the harness creates.
+would be further send restrictions; a transfer to a quarantined receiver parks the token with
+the quarantine module's funds holder until the receiver accepts), fee grants in use, expiring
+authz grants, scopes with `require_party_rollup`, scope specifications other than the one the
+harness creates (parties involved = [OWNER], so `validateRolesPresent` always passes and
+`validateProvenanceRole` reduces to "no owner is a smart contract"), NAV entries (`usd_mills`),
+records and sessions of a deleted scope, malformed bech32 strings (names are symbolic).
 Core-only.
 -/
 import PvModel.Util
